@@ -72,7 +72,7 @@ def bsGuard (s : BS) : Bool := decide (s.start ≤ s.stop) && !s.found
 
 /-- one iteration of the binary search for `v` in `tests` -/
 def bsBody (tests : List Bytes) (v : Bytes) (s : BS) : Except Err BS :=
-  let mid := Int.fdiv (s.start + s.stop) 2
+  let mid := (s.start + s.stop) / 2        -- Python `//`: floor division; `Int./` rounds down for a positive divisor
   if mid < 0 then .error (.oob "isin:test_elements[mid]")
   else
     match getE tests mid.toNat "isin:test_elements[mid]" with
